@@ -136,8 +136,8 @@ type omapIter struct {
 
 func (m *omap) iter() *omapIter {
 	it := &omapIter{m: m}
-	if m != nil && mapOrderMode != 0 && m.n > 1 && m.n <= 6 {
-		it.perm = choosePerm(m)
+	if m != nil && mapOrderMode != 0 && m.n > 1 {
+		it.perm = modePerm(m, mapOrderMode)
 	}
 	return it
 }
@@ -168,14 +168,14 @@ func (it *omapIter) next() tuple {
 	return []value{false, nil, nil}
 }
 
-// mapOrderMode: 0 = insertion order; 1 = a free choice among orders for maps
-// whose iteration is started while the mode is on (nondet.MapOrder(true)).
+// mapOrderMode: 0 = insertion order; 1 = reverse, 2 = rotated by one, 3 =
+// rotated by half.  nondet.MapOrder(true) picks one of the three as a free
+// choice of the explorer and applies it to every map iterated while it is on
+// (one choice per run keeps the schedule space small; the reverse order is the
+// strongest single probe of an order dependence).
 var mapOrderMode int
 
-// choosePerm picks, as a free choice of the explorer, an iteration order of
-// the live entries: every permutation up to 3 entries, insertion order, its
-// reverse and two rotations above.
-func choosePerm(m *omap) []int {
+func modePerm(m *omap, mode int) []int {
 	var live []int
 	for i := range m.keys {
 		if m.live[i] {
@@ -183,39 +183,18 @@ func choosePerm(m *omap) []int {
 		}
 	}
 	n := len(live)
-	var perms [][]int
-	if n <= 3 {
-		var rec func(cur []int, used []bool)
-		rec = func(cur []int, used []bool) {
-			if len(cur) == n {
-				perms = append(perms, append([]int(nil), cur...))
-				return
-			}
-			for i := 0; i < n; i++ {
-				if !used[i] {
-					used[i] = true
-					rec(append(cur, live[i]), used)
-					used[i] = false
-				}
-			}
+	r := make([]int, n)
+	for i := range live {
+		switch mode {
+		case 1:
+			r[i] = live[n-1-i]
+		case 2:
+			r[i] = live[(i+1)%n]
+		default:
+			r[i] = live[(i+n/2)%n]
 		}
-		rec(nil, make([]bool, n))
-	} else {
-		id := append([]int(nil), live...)
-		rev := make([]int, n)
-		for i := range live {
-			rev[i] = live[n-1-i]
-		}
-		rot := func(k int) []int {
-			r := make([]int, n)
-			for i := range live {
-				r[i] = live[(i+k)%n]
-			}
-			return r
-		}
-		perms = [][]int{id, rev, rot(1), rot(n / 2)}
 	}
-	return perms[X.Choose(len(perms))]
+	return r
 }
 
 // eqValue returns x == y for type t as a bool or, if symbolic values are
